@@ -319,7 +319,13 @@ func existsPathAssuming(fn *ssa.Function, from, to ssa.Instruction, avoid func(s
 		if len(b.Instrs) > 0 {
 			if iff, ok := b.Instrs[len(b.Instrs)-1].(*ssa.If); ok && len(succs) == 2 {
 				f := normFact(iff.Cond, true)
-				if want, ok := assume[f.V]; ok {
+				if cb, isC := constBool(iff.Cond); isC {
+					if cb {
+						succs = succs[:1]
+					} else {
+						succs = succs[1:]
+					}
+				} else if want, ok := assume[f.V]; ok {
 					if want == f.Val {
 						succs = succs[:1]
 					} else {
